@@ -638,7 +638,10 @@ pub fn parent<C: Check>(check: &'static C, tier: Tier) -> i32 {
         if !path.exists() {
             harness_error(&format!("known finding replay missing: {}", path.display()));
         }
-        let o = run_replay_process(&path.to_string_lossy(), check.run_timeout() + Duration::from_secs(30), &[]);
+        // the other listed findings of this property are tolerated during the replay, exactly as in
+        // the search, so that the replay reaches the finding it is about
+        let others: Vec<String> = my_known.iter().filter(|o| o.signature != k.signature).map(|o| o.signature.clone()).collect();
+        let o = run_replay_process(&path.to_string_lossy(), check.run_timeout() + Duration::from_secs(30), &others);
         let still = o.violated && o.sig.as_deref() == Some(k.signature.as_str());
         if still {
             println!("KNOWN-FINDING: property={id} {} [sig {}]", k.what, k.signature);
